@@ -540,6 +540,8 @@ func (e *engine) probeDefects() {
 		e.def.dealloc, m = safely(witnessDealloc)
 		asFoundDealloc = e.def.dealloc
 		c.Known(tagDealloc, e.def.dealloc, m)
+		defWriteLeak, m = safely(func() (bool, string) { return witnessWriteLeak(c.Scratch) })
+		c.Known(tagWriteLeak, defWriteLeak, m)
 	} else {
 		c.Known(tagRemove, treeBroken, tm)
 	}
